@@ -137,11 +137,11 @@ class Seams:
                     except Exception:
                         return iter(self_._data)
                     seams.iter_calls += 1
-                    if seams.observe or seams.order_rng is None or len(items) < 2:
+                    if seams.observe:
                         return iter(items)
+                    if seams.order_rng is None or len(items) < 2 or seams.mode == "sorted":
+                        return _guarded(self_._data, items)
                     m = seams.mode
-                    if m == "sorted":
-                        return iter(items)
                     seams.permuted_calls += 1
                     if m == "reverse":
                         items.reverse()
@@ -150,7 +150,7 @@ class Seams:
                     elif m == "rotate":
                         k = seams.order_rng.randrange(len(items))
                         items = items[k:] + items[:k]
-                    return iter(items)
+                    return _guarded(self_._data, items)
 
                 SW.__iter__ = sim_iter
                 self.order_available = True
@@ -220,6 +220,19 @@ class Seams:
 
 def _uuid_key(n):
     return n.uuid.int
+
+
+def _guarded(data, items):
+    """Iterate the (re-ordered) snapshot, but fail exactly like the native set
+    iterator when the underlying set changes size during the iteration: the
+    order seam must not hide 'Set changed size during iteration'."""
+    n = len(data)
+    for x in items:
+        if len(data) != n:
+            raise RuntimeError("Set changed size during iteration")
+        yield x
+    if len(data) != n:
+        raise RuntimeError("Set changed size during iteration")
 
 
 # --------------------------------------------------------------------------
